@@ -117,12 +117,62 @@ def run(ctx, n=None, compare=True):
                 built, cfg_irr, ans = extra
                 lines.append(rules.model_line(built, cfg_irr))
                 impls.append((rules.canon(ans).strip(), case, cfg_irr))
+    if n >= 1000 or ctx.tier == "thorough":
+        fast_stream(ctx, ctx.scale(14000, 80000))
     if compare and lines:
         outs = core.run_driver(lines)
         for line, out, (impl_s, case, cfg) in zip(lines, outs, impls):
             if out.strip() != impl_s:
                 ctx.disagreements.append({"line": line, "impl": impl_s, "model": out.strip(), "case": case.to_json(), "cfg": ruleprops.cfg_json(cfg)})
             ctx.sample(f"{line} -> impl: {impl_s} | model: {out.strip()}")
+
+
+def fast_stream(ctx, n):
+    """tie-rich elections, irresolute call vs the independent definition enumerating every tie branch (cheap: no m! loop)"""
+    from . import C02, C03
+
+    rng = ctx.rng
+    for _ in range(n):
+        if ctx.budget_s is not None and ctx.elapsed() > ctx.budget_s:
+            break
+        if rng.random() < 0.35:
+            case = tie_rich_election(rng)
+        else:
+            # independently drawn approval ballots over 4-6 projects with small integer costs: ties between projects with
+            # overlapping (not equal, not disjoint) supporter sets, where the order of the purchases matters later on
+            r = random.Random(rng.getrandbits(48))
+            m = r.randint(4, 6)
+            names = r.sample(core.NAME_POOL, m)
+            costs = [F(r.choice([1, 2, 3, 4])) for _ in names]
+            ballots = [[x for x in names if r.random() < 0.5] for _ in range(r.randint(3, 6))]
+            case = Case(list(zip(names, costs)), F(r.randint(2, int(sum(costs)) + 1)), "app", ballots, seed=r.getrandbits(32))
+        cfg = rulegen.gen_rule_cfg(rng, case, rules=("mes", "mes", "greedy", "phragmen"), allow_refuse=False, allow_init=False, allow_float=False)
+        cfg["tie"] = "lexico"
+        cfg["res"] = False
+        cfg.pop("loads_per_voter", None)
+        if cfg["rule"] == "greedy":
+            cfg["additive"] = None
+        built = rules.Built(case, multi=cfg.get("multi", False))
+        ans, raw = rules.impl_answer(built, cfg)
+        ctx.evaluations += 1
+        ctx.count("fast_stream", cfg["rule"])
+        if ans[0] != "oks":
+            ctx.violations.append(violation(f"irresolute call raised {ans[1]}", case, cfg, impl=rules.canon(ans), sig={"rule": cfg["rule"], "clause": "fast", "err": ans[1]}))
+            continue
+        it = ruleprops.Item(case, cfg, built, ans, raw, None)
+        if cfg["rule"] == "mes":
+            exp = oracle.mes(case, C02.utilities_for(it), branch=True)
+        elif cfg["rule"] == "greedy":
+            exp = oracle.greedy(case, C03.tsat_for(it), branch=True)
+        else:
+            exp = oracle.phragmen(case, branch=True)
+        exp_sets = sorted(sorted(case.rank[p] for p in s) for s in exp)
+        got = sorted(sorted(w) for w in ans[1])
+        if len(exp_sets) >= 2:
+            ctx.nontrivial.add("fast" + case.key() + cfg["rule"] + str(cfg.get("sat")))
+        if got != exp_sets:
+            ctx.violations.append(violation("irresolute outcomes differ from the set of outcomes reachable by breaking ties in every possible way",
+                                            case, cfg, impl=got, expected=exp_sets, sig={"rule": cfg["rule"], "sat": cfg.get("sat"), "clause": "fast"}))
 
 
 def search(ctx, disagreements):
